@@ -220,6 +220,8 @@ extern unsigned char vp_arg[][64], vp_cap[][64], vp_retsrc[], vp_retdst[];
 extern volatile int vp_ncall, vp_nid;
 extern volatile long vp_one, vp_x[3], vp_sink;
 extern volatile double vp_done, vp_dx[3], vp_dsink;
+extern volatile long double vp_ldsrc;
+extern volatile long vp_lconv;
 '''
 
 
@@ -259,6 +261,8 @@ def build_batch(sigs):
             b.append("  %s(w_%d)(ap);" % ("OTHERRAW" if sg.ctx == "vfwdO" else "SAMERAW", n))
         if var:
             b.append("  va_end(ap);")
+        if LDOUBLE in sg.args or sg.ret == LDOUBLE:
+            b.append("  vp_lconv = (long)vp_ldsrc;")      # long double -> integer conversion: chibicc switches the x87 control word for it
         b.append("  vp_ncall++;")
         if sg.ret:
             b.append("  return *(%s *)vp_retsrc;" % rt)
